@@ -299,7 +299,8 @@ def run_case(case, ctx, acc):
                             acid, base = (g, p1) if g0['charge'] < 0 else (p1, g)
                             if acid['pka'] < base['pka'] - 0.01:
                                 # (a bond that exists in the default run only through the buried COO-HIS rule is a separate class)
-                                rule = ({g0['type'], p0['type']} == {'COO', 'HIS'} and abs(abs(val) - params.COO_HIS_exception) < 1e-9)
+                                rule = (({g0['type'], p0['type']} == {'COO', 'HIS'} and abs(abs(val) - params.COO_HIS_exception) < 1e-9)
+                                        or ({g0['type'], p0['type']} == {'OCO', 'HIS'} and abs(abs(val) - params.OCO_HIS_exception) < 1e-9))
                                 v.append(('hbond-partner-lost/sidechain-I-acid-base' + ('/buried-coo-his-rule' if rule else ''), '%s lost its hydrogen bond with unlisted %s (default %r) although pKa(acid) %.2f < pKa(base) %.2f' % (
                                     k, pkey, val, acid['pka'], base['pka'])))
                     lost = [x for x in nside(g0, g0s) if x not in nside(g, gs)]
